@@ -70,6 +70,7 @@ func vCleanupScratch() {
 type verifC1213Suite struct {
 	snapmgrBaseTest
 	vNotDone int
+	vAbort   bool // a watchdog fired: stop generating
 }
 
 var _ = Suite(&verifC1213Suite{})
@@ -224,9 +225,21 @@ func (h *vHistory) runChange(kind string, tss ...*state.TaskSet) *state.Change {
 	for _, ts := range tss {
 		chg.AddAll(ts)
 	}
-	h.s.settle(h.c)
+	// like snapmgrBaseTest.settle, but with a watchdog that is far above any
+	// normal duration (the suite's 5 s fires on a loaded machine); firing makes
+	// the run inconclusive, never a verdict
+	h.s.state.Unlock()
+	err := h.s.o.Settle(vSettleWatchdog)
+	h.s.state.Lock()
+	if err != nil {
+		h.chk.Inconclusive(fmt.Sprintf("history %d: %s change did not settle within the watchdog: %v", h.idx, kind, err))
+		h.dead = true
+		h.s.vAbort = true
+	}
 	return chg
 }
+
+const vSettleWatchdog = 15 * time.Minute
 
 func vRevOfPath(p string) (name string, rev int, ok bool) {
 	// <SnapMountDir>/<name>/<rev>
@@ -1070,6 +1083,9 @@ func (s *verifC1213Suite) runHistories(c *C, chk *kit.Check, prof *vProfile, n i
 	for idx := 0; idx < n; idx++ {
 		if only >= 0 && idx != only {
 			continue
+		}
+		if s.vAbort {
+			break
 		}
 		// fresh world per history (same trick as the package's TestSeqRetainConf)
 		s.TearDownTest(c)
